@@ -98,6 +98,14 @@ func Unmarshal(hash string, v interface{}) error {
 			}
 		}
 	}
+	if ti.HashPrefix == nil && tree.Prefix != nil {
+		return &UnmarshalTypeError{
+			Value:  tree.Prefix.Type().String(),
+			Type:   reflect.TypeOf(v),
+			Offset: int(tree.Prefix.End()),
+			Msg:    "excessive prefix",
+		}
+	}
 	for _, fi := range ti.Fields {
 		if !fi.Opts.Group && group != nil {
 			// End of group
